@@ -22,9 +22,15 @@ func vReplica(prefix string, n, K, env int, mayFail bool) *vManager {
 		m.shards = append(m.shards, vNewShard(i, K, false, env))
 	}
 	if mayFail {
-		m.shardsErr = zzv.Bool(prefix + ".shardsErr")
-		m.scaleErr1 = zzv.Bool(prefix + ".scaleErr1")
-		m.scaleErr2 = zzv.Bool(prefix + ".scaleErr2")
+		// how the replica fails: 0 not at all, 1 listing its shards, 2 its first scale request, 3 its second
+		switch zzv.Choose(prefix+".fails", 4) {
+		case 1:
+			m.shardsErr = true
+		case 2:
+			m.scaleErr1 = true
+		case 3:
+			m.scaleErr2 = true
+		}
 	}
 	vPrefix = "s"
 	return m
@@ -39,6 +45,9 @@ func vExplorerCopy(K int) *vExplorer { return vNewExplorer(K) }
 func VTwoReplicas(nA, nB, envA, envB int) {
 	const K = 1
 	opt := vOption()
+	if envB&32 != 0 {
+		zzv.Assume(opt.DisableAlleviate)
+	}
 	vMargin = opt
 	vBase = time.Now()
 	// both cycles are compared at the same instant: the clock is frozen, and idle instants are
